@@ -337,3 +337,129 @@ def loop_of(fn, bb):
 def arm(sw, idx):
     """target block of variant idx of an enum switch (explicit arm or the otherwise edge)"""
     return sw['arms'].get(idx, sw['otherwise'])
+
+
+# --------------------------------------------------------------------------- symbolic value expressions
+COMMUTATIVE = {'Add', 'AddWithOverflow', 'Mul', 'MulWithOverflow', 'BitAnd', 'BitOr', 'BitXor', 'Eq', 'Ne', 'AddUnchecked'}
+_NORM_OP = {'AddWithOverflow': 'Add', 'SubWithOverflow': 'Sub', 'MulWithOverflow': 'Mul', 'AddUnchecked': 'Add', 'SubUnchecked': 'Sub'}
+
+
+def vexpr(fn, op, depth=16, _seen=None):
+    """Canonical symbolic expression (a string) of the value of an operand / place inside one function, built from
+    parameters, constants, field paths, arithmetic and the result of calls. Two equal strings denote the same
+    computation (reads of the same place are identified; the caller must rule out intervening writes)."""
+    _seen = _seen or set()
+    if op is None:
+        return '?'
+    if 'c' in op and 'l' not in op:
+        if 'int' in op:
+            return str(op['int'])
+        if 'str' in op:
+            return repr(op['str'])
+        if 'fn' in op:
+            return 'fn:' + op['fn']
+        return 'const<%s>%s' % (op['c'], (':' + op['uneval']) if 'uneval' in op else '')
+    p = op_place(op) if ('cp' in op or 'mv' in op) else op
+    return _vexpr_place(fn, p, depth, _seen)
+
+
+def _vexpr_place(fn, p, depth, seen):
+    l = p['l']
+    projs = [x for x in place_projs(p)]
+    suffix = ''.join(proj_str(x) for x in projs if x != '*')
+    if 1 <= l <= fn.argc:
+        return 'arg%d%s' % (l, suffix)
+    if depth <= 0 or l in seen:
+        return '_%d%s' % (l, suffix)
+    defs = [d for d in fn.defs_of(l) if d[0] in ('assign', 'call')]
+    if len(defs) != 1:
+        if not defs:
+            return 'undef_%d%s' % (l, suffix)
+        return 'phi(%s)%s' % ('|'.join(sorted(_vexpr_def(fn, d, depth - 1, seen | {l}) for d in defs)), suffix)
+    return _vexpr_def(fn, defs[0], depth - 1, seen | {l}) + suffix
+
+
+def _vexpr_def(fn, d, depth, seen):
+    if d[0] == 'call':
+        c = d[3]
+        nm = c.name()
+        if nm in ('len',) and c.args:
+            return 'len(%s)' % vexpr(fn, c.args[0], depth, seen)
+        if fn._transparent(c) and c.args:
+            return vexpr(fn, c.args[0], depth, seen)
+        if nm in ('branch',) and c.args:    # Try::branch(x) keeps the payload
+            return vexpr(fn, c.args[0], depth, seen)
+        return '%s(%s)' % (nm, ','.join(vexpr(fn, a, depth, seen) for a in c.args))
+    rv = d[3]
+    k = rv['k']
+    if k in ('use', 'cast'):
+        return vexpr(fn, rv['a'], depth, seen)
+    if k in ('ref', 'rawptr'):
+        return _vexpr_place(fn, rv['p'], depth, seen)
+    if k == 'bin':
+        a = vexpr(fn, rv['a'], depth, seen)
+        b = vexpr(fn, rv['b'], depth, seen)
+        op = _NORM_OP.get(rv['op'], rv['op'])
+        if rv['op'] in COMMUTATIVE or op in COMMUTATIVE:
+            a, b = sorted([a, b])
+        return '%s(%s,%s)' % (op, a, b)
+    if k == 'un':
+        return '%s(%s)' % (rv['op'], vexpr(fn, rv['a'], depth, seen))
+    if k == 'agg':
+        if rv['ak'] == 'adt':
+            return '%s::%s{%s}' % (rv['adt'].rsplit('::', 1)[-1], rv['v'], ','.join('%s:%s' % (n, vexpr(fn, o, depth, seen)) for n, o in zip(rv['fn'], rv['ops'])))
+        return '%s(%s)' % (rv['ak'], ','.join(vexpr(fn, o, depth, seen) for o in rv['ops']))
+    if k == 'discr':
+        return 'discr(%s)' % _vexpr_place(fn, rv['p'], depth, seen)
+    return k
+
+
+def try_edges(fn, call):
+    """For a call whose Result/Option is tested (`?`, match, if let, is_ok/is_some): list of (branch_bb, ok_target, err_target)."""
+    out = []
+    if call.dest is None or not is_bare(call.dest):
+        return out
+    dl = call.dest['l']
+    # through Try::branch
+    for c in fn.calls():
+        if c.name() == 'branch' and c.args and op_place(c.args[0]) is not None and op_place(c.args[0])['l'] == dl:
+            out += _discr_edges(fn, c.dest['l'], ok_idx=0)
+    out += _discr_edges(fn, dl, ok_idx=None)
+    for b in branches_on_call(fn, lambda x: x.name() in ('is_some', 'is_ok', 'is_none', 'is_err')):
+        chk = b['call']
+        src = fn.origin(chk.args[0])
+        if any(t[0] == 'call' and t[1] is call for t in src):
+            good = b['true'] if chk.name() in ('is_some', 'is_ok') else b['false']
+            bad = b['false'] if chk.name() in ('is_some', 'is_ok') else b['true']
+            out.append((b['bb'], good, bad))
+    return out
+
+
+def _discr_edges(fn, local, ok_idx):
+    out = []
+    for i, blk in enumerate(fn.blocks):
+        t = blk['t']
+        if t['k'] != 'switch' or t['ty'] != 'isize':
+            continue
+        p = op_place(t['d'])
+        if p is None or not is_bare(p):
+            continue
+        for d in fn.defs_of(p['l']):
+            if d[0] == 'assign' and d[3]['k'] == 'discr' and d[3]['p']['l'] == local and not [x for x in place_projs(d[3]['p']) if x != '*']:
+                adt = d[3].get('adt') or ''
+                arms = {int(v): tgt for v, tgt in t['ts']}
+                if ok_idx is not None:
+                    oi, ei = ok_idx, 1 - ok_idx
+                elif adt.endswith('result::Result'):
+                    oi, ei = 0, 1
+                elif adt.endswith('option::Option'):
+                    oi, ei = 1, 0
+                else:
+                    continue
+                out.append((i, arms.get(oi, t['else']), arms.get(ei, t['else'])))
+    return out
+
+
+def ok_dominates(fn, call, bb):
+    """True if block bb is reachable only through the success edge of `call`'s result test."""
+    return any(ok != err and fn.edge_dominates(b, ok, bb) for b, ok, err in try_edges(fn, call))
